@@ -5,7 +5,7 @@
 (* FALSE on the event; EventDrift(ev, pre) the L2 (implementation-shaped)   *)
 (* disagreements.                                                           *)
 (***************************************************************************)
-EXTENDS FuseAbs
+EXTENDS LinalgAbs
 
 Has(r, f) == f \in DOMAIN r
 Labels(x) == IF IsFermi(x) THEN x.oddpos ELSE <<>>
@@ -436,14 +436,23 @@ PseudoFails(ev, pre) ==
             \* args.present[i]: did the i-th call return (TRUE) or raise (FALSE)
             F(Cardinality({ev.args.present[i] : i \in 1..Len(ev.args.present)}) <= 1, c)
        [] ev.args.how = "bits" -> F(ev.args.bits_equal, c)
+       [] ev.args.how = "vec_prefix" ->
+            \* x keeps no more than y: every block of x is a prefix of the same block of y
+            IF IsVector(x) /\ IsVector(y) /\ AllExact(x) /\ AllExact(y)
+            THEN F(\A k \in VecKeys(x) : VecHas(y, k) /\ Len(VecVals(x, k)) <= Len(VecVals(y, k))
+                      /\ VecVals(x, k) = SubSeq(VecVals(y, k), 1, Len(VecVals(x, k))), c)
+            ELSE {}
+       [] ev.args.how = "trunc_error" ->
+            \* x : squared error (scalar), y : full values, third register : kept values
+            LET z == Ins(ev, pre, 3) IN
+            IF IsScalar(x) /\ x.exact /\ IsVector(y) /\ IsVector(z) /\ AllExact(y) /\ AllExact(z)
+            THEN F(x.v = <<Norm2(VecElem(y)) - Norm2(VecElem(z)), 0>>, c) ELSE {}
        [] OTHER -> {"X00.unknown_relation"}
 
 ---------------------------------------------------------------------------
 \* block vectors (C08): arithmetic and elementwise functions act entry by entry
 VMap(v, f(_)) == {[k |-> e.k, v |-> f(e.v)] : e \in VecElem(v)}
 IsReal(v) == \A e \in VecElem(v) : e.v[2] = 0
-ISqrt(n) == CHOOSE r \in 0..n : r * r = n
-IsSquare(n) == n >= 0 /\ \E r \in 0..n : r * r = n
 VecJudge(ev, exp, p) ==
   IF ev.outcome = "raise" THEN {}
   ELSE LET r == Outs(ev, 1) IN
@@ -658,11 +667,162 @@ ConstructEv(ev, pre) ==
              \cup F(r.sym = a.sym /\ r.kind = a.kind /\ r.cls = a.cls, p \o ".class")
         ELSE {}), p)
 
+
+---------------------------------------------------------------------------
+\* decompositions (C11, C12) and truncation (C13)
+IsObs(v) == "t" \in DOMAIN v /\ v.t = "obs"
+IsNone(v) == "t" \in DOMAIN v /\ v.t = "none"
+ObserveEv(ev) ==
+  LET o == Outs(ev, 1)
+      p == IF ev.args.what \in {"spectrum", "eigvals", "solution"} THEN "C12.observed." ELSE "C11.observed."
+  IN IF ev.outcome = "raise" THEN {p \o "raises"}
+     ELSE {p \o f : f \in {g \in DOMAIN o.req : o.req[g] = FALSE}}
+
+MatrixOK(x) == IsArray(x) /\ Rank(x) = 2 /\ Valid(x)
+FactorsValid(fs, p) == F(\A i \in 1..Len(fs) : IsArray(fs[i]) /\ Valid(fs[i]), p \o ".factors_valid")
+
+QrEv(ev, pre) ==
+  LET x == Ins(ev, pre, 1) IN
+  Judge(ev, MatrixOK(x),
+    LET q == Outs(ev, 1)
+        r == Outs(ev, 2)
+    IN FactorsValid(<<q, r>>, "C11.qr")
+       \cup (IF IsArray(q) /\ IsArray(r) THEN FactorStructure(x, q, r, "C11.qr") ELSE {"C11.qr.type"})
+       \cup (IF IsArray(q) /\ IsFermi(x) THEN F(Labels(q) = Labels(x) /\ Labels(r) = <<>>, "C11.qr.labels") ELSE {}),
+    "C11.qr")
+
+SvdEv(ev, pre) ==
+  LET x == Ins(ev, pre, 1) IN
+  Judge(ev, MatrixOK(x),
+    LET u == Outs(ev, 1)
+        s == Outs(ev, 2)
+        vh == Outs(ev, 3)
+        D == DenseElems(x)
+    IN FactorsValid(<<u, vh>>, "C11.svd")
+       \cup (IF IsArray(u) /\ IsArray(vh) /\ IsVector(s)
+             THEN FactorStructure(x, u, vh, "C11.svd") \cup ValuesStructure(x, s, "C11.svd", FALSE)
+                  \cup (IF AllExact(s)
+                        THEN F(\A i \in 1..Len(s.blocks) : NonIncreasing(s.blocks[i].data)
+                                  /\ \A j \in 1..Len(s.blocks[i].data) : s.blocks[i].data[j][1] >= 0 /\ s.blocks[i].data[j][2] = 0,
+                               "C11.svd.values_sorted_nonneg")
+                             \cup (IF AllExact(x) /\ IsRealE(D) /\ IsMonomial(D)
+                                   THEN F(NZVecBag(s) = MagBagReal(D), "C12.svd.spectrum_equals_dense") ELSE {})
+                        ELSE {})
+             ELSE {"C11.svd.type"}),
+    "C11.svd")
+
+Hermitian(a) ==
+  /\ PlainIndex(a.ix[2]) = [dual |-> ~a.ix[1].dual, cm |-> a.ix[1].cm]
+  /\ LET E == Elem(a) IN \A e \in E : ValAt(E, <<e.k[2], e.k[1]>>) = VConj(e.v)
+EighEv(ev, pre) ==
+  LET a == Ins(ev, pre, 1)
+      en == MatrixOK(a) /\ a.charge = Zero /\ AllExact(a) /\ Hermitian(a)
+  IN Judge(ev, en,
+    LET w == Outs(ev, 1)
+        v == Outs(ev, 2)
+        D == DenseElems(a)
+    IN FactorsValid(<<v>>, "C11.eigh")
+       \cup (IF IsArray(v) /\ IsVector(w)
+             THEN F(SectorSet(v) = SectorSet(a) /\ Den(v).ix = Den(a).ix /\ v.charge = a.charge, "C11.eigh.vector_structure")
+                  \cup ValuesStructure(a, w, "C11.eigh", TRUE)
+                  \cup F(\A i \in 1..Len(a.blocks) : HasSector(v, a.blocks[i].s) => BlockOf(v, a.blocks[i].s).shape = a.blocks[i].shape,
+                         "C11.eigh.vector_shapes")
+                  \cup (IF AllExact(w) /\ ~IsFermi(a) /\ IsRealE(D) /\ \A e \in D : e.k[1] = e.k[2]
+                        THEN \* diagonal family: the eigenvalues of the stored sectors are the diagonal entries
+                             F(LET diag == {<<e.k, e.v[1]>> : e \in D}
+                                   zeros == SumSeqInt([i \in 1..Len(a.blocks) |-> a.blocks[i].shape[1]]) - Cardinality(D)
+                               IN /\ NZVecBag(w) = {<<m, Cardinality({d \in diag : d[2] = m})>> : m \in {d[2] : d \in diag}}
+                                  /\ Cardinality({e \in VecElem(w) : e.v = VZero}) = zeros,
+                               "C12.eigh.spectrum_equals_dense")
+                        ELSE {})
+             ELSE {"C11.eigh.type"}),
+    "C11.eigh")
+
+SolveEv(ev, pre) ==
+  LET a == Ins(ev, pre, 1)
+      b == Ins(ev, pre, 2)
+      en == /\ MatrixOK(a) /\ IsArray(b) /\ Rank(b) = 1 /\ Valid(b) /\ a.sym = b.sym /\ a.kind = b.kind
+            /\ PlainIndex(b.ix[1]).dual = a.ix[1].dual
+            /\ \A i \in 1..Len(a.blocks) : a.blocks[i].shape[1] = a.blocks[i].shape[2]
+            /\ \A c \in CmChargeSet(a.ix[1]) \cap CmChargeSet(b.ix[1]) : SizeOf(a.ix[1], c) = SizeOf(b.ix[1], c)
+  IN Judge(ev, en,
+    LET x == Outs(ev, 1) IN
+      FactorsValid(<<x>>, "C11.solve")
+      \cup (IF IsArray(x) /\ Rank(x) = 1
+            THEN F(x.charge = Combine(a.sym, b.charge, Neg(a.sym, a.charge)), "C11.solve.charge")
+                 \cup F(x.ix[1].dual = ~a.ix[2].dual /\ CmSet(x.ix[1]) \subseteq CmSet(a.ix[2]), "C11.solve.index")
+            ELSE {"C11.solve.type"}),
+    "C11.solve")
+
+\* ---- truncation ----
+CutoffPos(a) == Has(a, "cutoff") /\ a.cutoff[1] > 0
+MaxBond(a) == IF Has(a, "max_bond") THEN a.max_bond ELSE -1
+CutMode(a) == IF Has(a, "cutoff_mode") THEN a.cutoff_mode ELSE 4
+\* all singular values of the block with column charge c, descending, zeros included
+FullDesc(x, c) ==
+  LET b == CHOOSE bb \in SeqRange(x.blocks) : bb.s[2] = c
+      nz == DescSeq({a[2] : a \in {sl \in Slots(x) : sl[1] = c}})
+      k == MinI(b.shape[1], b.shape[2])
+  IN nz \o [i \in 1..(k - Len(nz)) |-> 0]
+TruncEv(ev, pre) ==
+  LET x == Ins(ev, pre, 1)
+      a == ev.args
+      en == MatrixOK(x) /\ CutMode(a) \in 1..6
+  IN Judge(ev, en,
+    LET U == Outs(ev, 1)
+        s == Outs(ev, 2)
+        VH == Outs(ev, 3)
+        D == DenseElems(x)
+        family == AllExact(x) /\ IsRealE(D) /\ IsMonomial(D) /\ DistinctSpectrum(x)
+        S == Slots(x)
+        cols == {b.s[2] : b \in SeqRange(x.blocks)}
+    IN FactorsValid(<<U, VH>>, "C13")
+       \cup (IF ~(IsArray(U) /\ IsArray(VH) /\ Valid(U) /\ Valid(VH)) THEN {}
+             ELSE F(Rank(U) = 2 /\ Rank(VH) = 2 /\ VH.ix[1].dual = ~U.ix[2].dual /\ VH.ix[1].cm = U.ix[2].cm, "C13.bond_conjugate_pair")
+               \cup F(\A i \in 1..Len(U.blocks) : CmHas(U.ix[2], U.blocks[i].s[2])
+                         /\ U.blocks[i].shape[2] = SizeOf(U.ix[2], U.blocks[i].s[2]), "C13.tables_match_blocks")
+               \cup F(CmChargeSet(U.ix[2]) = {U.blocks[i].s[2] : i \in 1..Len(U.blocks)}
+                      /\ {VH.blocks[i].s[1] : i \in 1..Len(VH.blocks)} = CmChargeSet(U.ix[2]), "C13.no_empty_charges")
+               \cup (IF IsVector(s) THEN F(VecKeys(s) = CmChargeSet(U.ix[2])
+                                             /\ \A c \in VecKeys(s) : VecBlock(s, c).shape = <<SizeOf(U.ix[2], c)>>, "C13.values_match_bond")
+                     ELSE F(IsNone(s), "C13.values_type"))
+               \cup (IF ~family THEN {}
+                     ELSE IF CutoffPos(a)
+                     THEN LET K == KeptSlots(S, a.cutoff[1], a.cutoff[2], CutMode(a), MaxBond(a))
+                              want == {[c |-> c, d |-> Cardinality({k \in K : k[1] = c})] : c \in {k[1] : k \in K}}
+                          IN F(CmSet(U.ix[2]) = want, "C13.kept_count")
+                             \cup (IF IsVector(s) /\ AllExact(s)
+                                   THEN F(\A c \in VecKeys(s) : [i \in 1..Len(VecVals(s, c)) |-> VecVals(s, c)[i][1]]
+                                                = DescSeq({k[2] : k \in {kk \in K : kk[1] = c}}), "C13.kept_values")
+                                        \cup F(\A e \in VecElem(s) : \A sl \in S :
+                                                 (~\E f \in VecElem(s) : f.k[1] = sl[1] /\ f.v[1] = sl[2]) => e.v[1] >= sl[2],
+                                               "C13.kept_ge_discarded")
+                                   ELSE {})
+                     ELSE \* no cutoff: bond = limit (or everything), a prefix of each charge's descending values
+                          LET total == SumSeqInt([i \in 1..Len(x.blocks) |-> MinI(x.blocks[i].shape[1], x.blocks[i].shape[2])])
+                              lim == IF MaxBond(a) > 0 /\ MaxBond(a) < total THEN MaxBond(a) ELSE total
+                          IN F(SumSeqInt([i \in 1..Len(U.ix[2].cm) |-> U.ix[2].cm[i].d]) = lim, "C13.nocutoff.bond_equals_limit")
+                             \cup (IF IsVector(s) /\ AllExact(s)
+                                   THEN F(\A c \in VecKeys(s) : c \in cols
+                                             /\ [i \in 1..Len(VecVals(s, c)) |-> VecVals(s, c)[i][1]]
+                                                 = SubSeq(FullDesc(x, c), 1, Len(VecVals(s, c))), "C13.nocutoff.largest_within_charge")
+                                   ELSE {}))),
+    "C13.svd_truncated")
+
+LinalgFails(ev, pre) ==
+  CASE ev.op = "qr" -> QrEv(ev, pre)
+    [] ev.op = "svd" -> SvdEv(ev, pre)
+    [] ev.op = "eigh" -> EighEv(ev, pre)
+    [] ev.op = "solve" -> SolveEv(ev, pre)
+    [] ev.op = "svd_truncated" -> TruncEv(ev, pre)
+
 ---------------------------------------------------------------------------
 OpFails(ev, pre) ==
   IF ev.op \in {"group_pairs", "group_assoc", "sectors"} THEN TableFails(ev)
   ELSE IF ev.op = "rel" THEN PseudoFails(ev, pre)
   ELSE IF ev.op = "init" \/ ev.in = <<>> THEN {}
+  ELSE IF ev.op = "observe" THEN ObserveEv(ev)
+  ELSE IF ev.op \in {"qr", "svd", "eigh", "solve", "svd_truncated"} THEN LinalgFails(ev, pre)
   ELSE IF ev.op = "from_dense" THEN FromDenseEv(ev, pre)
   ELSE IF ev.op \in {"from_blocks", "construct", "from_fill_fn"} THEN ConstructEv(ev, pre)
   ELSE IF ev.op = "fuse" THEN FuseEv(ev, pre)
